@@ -481,6 +481,7 @@ func init() {
 			}
 		}
 		ctxOps := c14CtxOps()
+		scns = append(scns, c14Multi(tier)...)
 		for _, co := range ctxOps {
 			co := co
 			scns = append(scns, fw.Scenario{ID: "C14/ctx/" + co.name, Group: "context", Run: func(c *fw.Ctx) {
